@@ -1179,7 +1179,7 @@ def run(ctx):
             if kind == "parse_slice" and "open" in out and out["open"] != replay["open"]:
                 ctx.mismatch("placement-slice-open", replay, replay["open"], out["open"])
     # ---- export, escaping, round trip
-    rreqs, rmetas = [], []
+    rreqs, rmetas, rt_seen = [], [], 0
     for name, schema in parse_schemas[:2]:
         info = schemas.by_name(name)
         ser = DOMSerializer.from_schema(schema)
@@ -1214,7 +1214,11 @@ def run(ctx):
             ids = {}
             reqs.append({"op": "serialize", "kids": [snode_json(ser, c, ids) for c in d.content.content]})
             metas.append((replay, html))
-            # export -> import tie: the real parse of the real HTML, recorded (snapshot of the oracle-annotated DOM)
+            # export -> import tie: the real parse of the real HTML, recorded (snapshot of the oracle-annotated DOM);
+            # quick tier: two documents out of three (wall-clock budget)
+            rt_seen += 1
+            if ctx.tier == "quick" and rt_seen % 3 == 0:
+                continue
             rdom = html_fragment(html)
             (st_r, doc_r), pcs = recorded(info, lambda: parsers[name].parse(rdom))
             snap = pcs[0]._snapshot if len(pcs) == 1 else None
